@@ -43,12 +43,13 @@ def regexes(x):
     m = FC.SUBCALL_RE.search(x)
     sub = m["call_chain"] if m else None
     fm = bool(FC.FORMAT_RE.match(x))
-    gt = bool(FC.ARITH_GOTO_RE.search(x))
+    g = FC.ARITH_GOTO_RE.search(x)
+    gt = x[: g.start()] + "goto" + x[g.end():] if g else None   # what the cascade scans in place of the statement
     e = FC.END_RE.match(x)
     ea = bool(e and e.group(1) and e.group(1).lower() == "associate")
     a = FC.ASSOCIATE_RE.match(x)
     asc = a["associations"] if a else None
-    return calls, sub, (fm, gt, ea), asc, mask(x)
+    return calls, sub, (fm, ea), asc, gt, mask(x)
 
 
 def add_calls(batches, calls, line):
@@ -84,16 +85,16 @@ def obj_path(o):
     while o is not None and getattr(o, "obj", None) != "sourcefile":
         names.append(str(getattr(o, "name", "?")).lower())
         o = getattr(o, "parent", None)
-    return ".".join(reversed(names))
+    return "@" + ".".join(reversed(names))      # never the spelling of a name
 
 
 def entity_of(o):
     m = sf()
     if hasattr(o, "retvar"):
         ts = strip_type(o.retvar.full_type)
-        if hasattr(o, "all_types") and ts not in o.all_types:
-            ts = "?" + ts          # the function's own table does not know the type: the walk stops there
-        return ("func", obj_path(o), ts, hasattr(o, "all_types"))
+        if ts not in getattr(o, "all_types", getattr(o.parent, "all_types", {})):
+            ts = "?" + ts          # the table the walk consults does not know the type: it stops there
+        return ("func", obj_path(o), ts)
     if isinstance(o, m.FortranType):
         return ("type", o.name.lower())
     if isinstance(o, m.FortranVariable):
